@@ -1,11 +1,14 @@
-"""C14 distinct repeating-group definitions never share metadata: theorems Props.C14 (soundness under a separating hash, the hash is
-blind to order/flags, affine collision lemma, witnesses) + stream `f8c`: schemas reusing one count field with identical / different /
-structurally close / colliding definitions, compiled by the fresh f8c and g++, every message's group read back and round-tripped."""
+"""C14 distinct repeating-group definitions never share metadata: theorems Props.C14 about the FIXED f8c (probe on a hash hit: every group of
+every message generated from its own definition for every closed insertion sequence, boundedness of the probe, key stability, facts about the key
+group_hash, regression theorems for the former finding witnesses) + stream `f8c`: schemas reusing one count field with identical / different /
+structurally close / equal-key definitions (order-only, flag-only, component-only, manufactured key collisions), compiled by the fresh f8c and g++,
+every message's group read back and round-tripped; every family must PASS the specification oracle."""
 import vlib, gen_facts, f8cfacts, f8ctv
 
-THEOREMS = ['C14_sound', 'C14_share_only_same', 'C14_first_wins', 'C14_hash_blind', 'C14_hash_member_set', 'C14_finding_blind_shares', 'C14_collision_lemma',
-            'C14_rothash_affine', 'C14_finding_collision_any', 'C14_difference_linear', 'C14_finding_collision_witness', 'C14_finding_collision',
-            'C14_finding_order_only', 'C14_finding_flag_only', 'C14_finding_nested_replaced']
+THEOREMS = ['C14_sound', 'C14_share_only_same', 'C14_probe_exits', 'C14_exit_condition', 'C14_key_stable', 'C14_key_inserted', 'C14_own_slot',
+            'C14_stored_was_inserted', 'C14_hash_blind', 'C14_hash_member_set', 'C14_collision_lemma', 'C14_rothash_affine', 'C14_key_collision_any',
+            'C14_difference_linear', 'C14_key_collision_witness', 'C14_fixed_blind_separate', 'C14_fixed_collision', 'C14_fixed_order_only',
+            'C14_fixed_flag_only', 'C14_fixed_nested']
 
 
 def gen(rng, thorough):
@@ -18,8 +21,8 @@ def gen(rng, thorough):
     for fam in f8ctv.VALID_REUSE:
         for _ in range(n_valid):
             cases.append(dict(S=fam(rng), valid=True, rt=[]))
-    # the known class: one rotating family per quick run (the corpus already holds one witness of each), all of them in thorough
-    fams = f8ctv.KNOWN_REUSE if thorough else [f8ctv.KNOWN_REUSE[rng.randrange(len(f8ctv.KNOWN_REUSE))]]
+    # equal-key families (formerly the known class): one rotating family per quick run (the corpus holds one regression of each), all in thorough
+    fams = f8ctv.SAMEKEY_REUSE if thorough else [f8ctv.SAMEKEY_REUSE[rng.randrange(len(f8ctv.SAMEKEY_REUSE))]]
     for fam in fams:
         for _ in range(max(1, n_known)):
             cases.append(dict(S=fam(rng), valid=True, rt=[]))
@@ -42,15 +45,17 @@ def run(res, replay=None):
         for p in sorted(__import__('glob').glob(os.path.join(vlib.ROOT, 'corpus', 'C14', '*.txt'))):
             cases += f8ctv.parse_replay(p)
         if not thorough:
-            cases = cases[:3]       # quick: the three headline witnesses (collision {2,100}/{3,8261}, order-only, flag-only)
+            cases = cases[:3]       # quick: the three headline regressions (key collision {2,100}/{3,8261}, order-only, flag-only)
         cases += gen(rng, thorough)
     res.assumptions += ['std::map modelled as an association list with unique keys; the V<n> numbering of shared trait arrays is not observable in the metadata and not modelled',
                         'the option --noshared (every hash unique) is never passed and not modelled',
+                        'the `_hash` member of a group spec is not carried by the model: the key is recomputed against the final map, justified by the proved key stability (C14_key_stable / C14_key_inserted)',
+                        'C14_sound assumes fewer than 2^32 group occurrences per schema (the bound under which the 32-bit probing loop terminates, C14_probe_exits)',
                         'rothash constants (shifts 2/5/13, 0x80001801) are extracted from include/fix8/f8utils.hpp into Gen/F8cFacts.lean on every run',
                         'generated code compiled with g++ -O0 + ASan/UBSan (no debug info) through a precompiled header; dumper and runtime library at -O1 -g with the sanitizers',
                         'UBSan vptr reports inside message.hpp/message.cpp are suppressed (has_group_count casts every count field to Field<int,0>)']
     res.cov['rule'] = ('schemas with one repeating-group count field used by 2-4 messages: identical definitions, unrelated definitions, definitions differing in one member, in the nested group only, '
-                       'in the nesting boundary of a member (valid families: each group must be generated from its own definition) and the known class: order-only, mandatory-flag-only, component-origin-only '
-                       'differences and different member sets manufactured to collide with the proved partner formula. Each schema: fresh f8c, g++, tables read back through F8MetaCntx and compared with '
+                       'in the nesting boundary of a member, and the equal-key families (the former finding): order-only, mandatory-flag-only, component-origin-only differences and different member sets '
+                       'manufactured to collide with the proved partner formula; in EVERY family each group must be generated from its own definition. Each schema: fresh f8c, g++, tables read back through F8MetaCntx and compared with '
                        'the model and with the schema itself; per message a full, and random-subset message built, encoded, decoded, re-encoded. distinct = distinct schema text; non-trivial = has at least one message')
     f8ctv.run_tv(res, module='Fix8Model.Props.C14', theorems=THEOREMS, cases=cases, per_msg=3 if thorough else 2)
